@@ -100,6 +100,15 @@ def oracle_c04(case, impl, model):
         return "reported header fields differ from the field lines of the head (dropped/merged/invented)"
     if (None if d["cl"] == "-" else int(d["cl"])) != cl:
         return "reported content length differs from the Content-Length line"
+    # the derived answers of the parsed collection are a fresh evaluation of the reported field lines, for every version of the
+    # request line (nothing but the fields decides them)
+    def has_tok(name, tok):
+        return any(t.strip(b" \t").lower() == tok for k, v in hs if k.lower() == name for t in v.split(b","))
+    if all(all(c == 9 or 32 <= c <= 126 for c in v) for _, v in hs):
+        if "cc" in d and (d["cc"] == "1") != has_tok(b"connection", b"close"):
+            return "'connection includes close' (%s) is not what the reported Connection fields say" % d["cc"]
+        if "ch" in d and (d["ch"] == "1") != has_tok(b"transfer-encoding", b"chunked"):
+            return "'transfer-encoding includes chunked' (%s) is not what the reported Transfer-Encoding fields say" % d["ch"]
     return None
 
 
@@ -386,6 +395,25 @@ def run_parse(pid, oracle):
                     why = "a well-formed request with a long target was not accepted: " + a[:60]
                 if why and len(o.violations) < 50:
                     o.violations.append({"case": c[:2000] + "...", "impl": a[:300], "why": why + " (target longer than 65535 bytes)"})
+        if pid == "C04":
+            # the same strictness wherever a head is read on a connection: stray CR / LF bytes in front of the request line are
+            # not skipped — not for the first request and not for a later one on a kept-alive connection (any serve path that
+            # reads heads goes through the same parser on the bytes as they are)
+            get = b"GET /p/1/2 HTTP/1.1\r\n\r\n"
+            post = b"POST /echo HTTP/1.1\r\nContent-Length: 3\r\n\r\nabc"
+            ok1, ok2 = "R200:0:" + hx(b"1,2"), "R200:0:" + hx(b"abc")
+            cl, cw = [], []
+            for pre in (b"\n", b"\r", b"\r\n", b"\n\r", b"\r\r\n", b"\n\n", b" ", b"\t"):
+                cl.append("CONN max=4096 script=s:%s,r,e" % hx(pre + get)); cw.append(["R400:1:e", "EOF"])
+                cl.append("CONN max=4096 script=s:%s,r,s:%s,r,e" % (hx(get), hx(pre + get))); cw.append([ok1, "R400:1:e", "EOF"])
+                cl.append("CONN max=4096 script=s:%s,r,s:%s,r,e" % (hx(post), hx(pre + get))); cw.append([ok2, "R400:1:e", "EOF"])
+                cl.append("CONN max=4096 script=s:%s,s:%s,r,s:%s,r,e" % (hx(post[:-3]), hx(post[-3:]), hx(pre + post))); cw.append([ok2, "R400:1:e", "EOF"])
+            for c, a, w in zip(cl, C.run_sharded(ctx["kimpl"], cl, shards=min(C.NCPU, 8)), cw):
+                o.evaluations += 1
+                pz = a.split()
+                got = pz[1].split(",") if len(pz) >= 2 and pz[0] == "T" else None
+                if got != w and len(o.violations) < 50:
+                    o.violations.append({"case": c, "impl": a[:200], "expected": ",".join(w), "why": "bytes in front of a request line were skipped or misread on a connection: got %s, expected %s" % (",".join(got or [a[:30]])[:80], ",".join(w))})
         if pid == "C02":
             r = rng_for(seed, "c02")
             n = 3000 if t == "quick" else 120000
